@@ -94,6 +94,25 @@ Theorem C31_lsp_lists_exactly_up : forall (evs : list event) k,
 Proof. exact lsp_lists_exactly_up. Qed.
 Print Assumptions C31_lsp_lists_exactly_up.
 
+(* An adjacency change that lands WHILE the LSP updater builds the LSP is not lost: the updater takes the
+   request (clears the flag) before it builds - [ForceRegen] is that build, the hello arrives during it and
+   sets the flag again if it changes the Up set, the updater then looks at the flag again ([Regen]): after
+   any history followed by such a build the LSP lists exactly the Up adjacencies and nothing is pending. *)
+Theorem C31_lsp_lists_exactly_up_change_during_build : forall (evs : list event) k hold v,
+  let s := run init (evs ++ [ForceRegen; Hello k hold v; Regen]) in
+  lsp s = up_ids (nbrs s) /\ pending s = false.
+Proof. exact change_during_build. Qed.
+Print Assumptions C31_lsp_lists_exactly_up_change_during_build.
+
+(* ... whereas an updater that clears the flag again after building (seeded change C31-2r3) leaves the LSP
+   stale with nothing pending *)
+Theorem C31_drain_after_build_loses_change :
+  let s0 := run init [Hello 0 9 NotLists; Regen] in
+  let s := step (drained (run s0 [ForceRegen; Hello 0 9 Lists])) Regen in
+  up_ids (nbrs s) = [0] /\ lsp s = [] /\ pending s = false.
+Proof. exact drain_after_build_loses_change. Qed.
+Print Assumptions C31_drain_after_build_loses_change.
+
 (* Non-vacuity. Neighbor 0 completes the handshake, is listed, falls silent, times out (the LSP is
    updated), and is removed; neighbor 1 never gets beyond Init and is removed as well. *)
 Example C31_example_history :
